@@ -84,14 +84,17 @@ def child(mode: str) -> None:
 
 def main() -> int:
     res = {}
-    for hs, mode in (("1", "fresh"), ("2", "after"), ("3", "twice")):
-        env = dict(os.environ, PYTHONHASHSEED=hs, HS_ROOT=ROOT)
-        p = subprocess.run([sys.executable, os.path.abspath(__file__), "--child", mode],
-                           env=env, capture_output=True, text=True, check=False)
+    plan = (("1", "fresh"), ("2", "after"), ("3", "twice"))
+    procs = [subprocess.Popen([sys.executable, os.path.abspath(__file__), "--child", mode],
+                              env=dict(os.environ, PYTHONHASHSEED=hs, HS_ROOT=ROOT),
+                              stdout=subprocess.PIPE, stderr=subprocess.PIPE, text=True)
+             for hs, mode in plan]  # fresh interpreters, started concurrently
+    for (hs, mode), p in zip(plan, procs):
+        out, err = p.communicate()
         if p.returncode != 0:
-            print(p.stderr[-3000:])
+            print(err[-3000:])
             return 2
-        res[mode] = json.loads(p.stdout.strip().splitlines()[-1])
+        res[mode] = json.loads(out.strip().splitlines()[-1])
         print(f"{mode:6s} (PYTHONHASHSEED={hs}): {res[mode]}")
     same = len({r["digest"] for r in res.values()}) == 1
     print("ok: identical digests" if same else "DIGESTS DIFFER")
